@@ -205,7 +205,7 @@ Definition spell_text (mode : nat) (fd : bool) (prob pc art : f64w) (items : lis
   end.
 
 (** * val glue: fourth stream
-    input  = (4 mode fd seed text items miss (prob pc art) aux)
+    input  = (4 mode fd seed text items miss (prob pc art temp) aux divs)
              text: code points; items = ((key freq weight) ...) the dictionary file, line by line
              (distinct keys; weight = the f64 [freq.powf(1.0 / art_temp)] as (0 m e));
              miss = ((word (misspelling ...)) ...) distinct words; prob, pc, art as f64 values;
@@ -243,10 +243,17 @@ Definition aux_word (w : str) : val :=
 Definition aux_of (text : str) : val := list_v aux_word (split_ws text).
 Definition aux_ok (v : val) : bool := val_eqb (aux_of (v_str (v_nth 4 v))) (v_nth 8 v).
 
+(** division probes (tenth field): ((a b q) ...), q = the f64 [(a as f64) / (b as f64)] as the harness computes it —
+    the binary64 division and the [usize as f64] conversion of C15_Tables are compared with the hardware on the
+    (frequency, total) pairs of the dictionary and on random operands up to 2^62 *)
+Definition div_ok (d : val) : bool :=
+  val_eqb (f64w_v (fdiv (f_of_N (v_n (v_nth 0 d))) (f_of_N (v_n (v_nth 1 d))))) (v_nth 2 d).
+Definition divs_ok (v : val) : bool := forallb div_ok (v_list (fun x => x) (v_nth 9 v)).
+
 (** exact line: both runs print what the model computes from the seed *)
 Definition exact_spell4 (v m i : val) : bool :=
   match i with
-  | L [r1; r2] => val_eqb r1 m && val_eqb r2 m && aux_ok v
+  | L [r1; r2] => val_eqb r1 m && val_eqb r2 m && aux_ok v && divs_ok v
   | _ => false
   end.
 
